@@ -102,6 +102,19 @@ pub fn point(op: Op, addr: usize) {
     }
 }
 
+/// a plain (non-atomic) read-modify-write of a word that is shared by design, executed the way it is compiled:
+/// load, compute, store - with a scheduling point in front of the load and one between the load and the store
+/// # Safety
+/// `p` is valid for reads and writes
+#[inline]
+#[track_caller]
+pub unsafe fn plain_rmw(p: *mut usize, f: impl FnOnce(usize) -> usize) {
+    point(Op::PlainRead, p as usize);
+    let v = std::ptr::read(p);
+    point(Op::PlainWrite, p as usize);
+    std::ptr::write(p, f(v));
+}
+
 #[inline]
 #[track_caller]
 pub fn post(addr: usize) {
